@@ -3,6 +3,7 @@ package props
 import (
 	"context"
 	"fmt"
+	"strings"
 	"sync"
 
 	"github.com/orda-io/orda/client/pkg/model"
@@ -213,7 +214,9 @@ func runC08Col(c *core.Case, ci int) *core.Result {
 		if d == nil {
 			return nil, nil, c.Inconclusive("open")
 		}
-		if err := cl.Register(); err != nil {
+		if err := cl.Register(); err != nil && strings.Contains(err.Error(), "timed out") {
+			return nil, nil, c.Inconclusive("registration watchdog")
+		} else if err != nil {
 			return nil, nil, c.Violation(where()+"client-refused-in-new-collection", "client %s cannot register in collection colB after its creation / reset was acknowledged: %v", alias, err)
 		}
 		w.cls = append(w.cls, cl)
